@@ -37,6 +37,8 @@ def all_rules(tier):
     for n in (1, 2, 3):
         for seq in itertools.product(["mov", "push"], repeat=n):
             rules.append(e1.RuleCase("seq", list(seq), "c11", want=W))
+            if n <= 2:
+                rules.append(e1.RuleCase("seq/dup", list(seq), "dup", want=("verdict",)))
     # rules with capture groups (the regex then has numbered groups; results must still be whole matches)
     for pat in (["&i", "&i"], ["&i", "push"], [{"push": ["&x"]}, {"push": ["&x"]}], [{"mov": ["&x", "&y"]}, "push"],
                 [{"mov": ["&x", "&y"]}], ["&i", "&j", "&i"], [{"push": ["&genreg-1.64"]}, {"push": ["&genreg-1.64"]}]):
@@ -56,7 +58,8 @@ def shards(tier):
 
 
 def build_lsets(h, tier):
-    return {"c11": e1.ListingSet(h, ALPHA, bounds(tier)["L_listing_len"])}
+    return {"c11": e1.ListingSet(h, ALPHA, bounds(tier)["L_listing_len"]),
+            "dup": e1.ListingSet(h, ALPHA, 4, minlen=2, addrs=["0", "3", "0", "3"])}    # addresses restart (several code sections)
 
 
 LONG_RULES = [["mov", "push"], ["push", "ret", "mov"], [{"$not": ["ret"]}, {"$not": ["mov"]}], ["ret"],
@@ -103,6 +106,25 @@ def run_shard(shard, tier, h, res, known):
             mop = h.mop(make_rule_doc(rc.pattern))
         except Exception:
             continue
+        if rc.lset == "dup":
+            # repeated addresses: the scan is checked on the number and order of reported addresses
+            ref = rm.Ref()
+            for idx, path, norm, att in lsets["dup"]:
+                res.evaluations += 1
+                got = h.match(mop, path, mode="all", only_addr=True)
+                spans, i = [], 0
+                while i < len(norm):        # leftmost non-overlapping scan on the reference relation (plain sequences: unique end)
+                    ends = ref.ends(rc.pattern, norm, i)
+                    if ends:
+                        spans.append(i)
+                        i = max(ends)
+                    else:
+                        i += 1
+                want = [norm[s][0] for s in spans]
+                if got != want:
+                    res.fail({"clause": "scan-dup-addr", "rule": make_rule_doc(rc.pattern), "family": rc.family,
+                              "listing": [[a, m, list(o)] for a, m, o in att], "expected": want, "observed": got, "size": len(att)}, known)
+            continue
         for idx, path, norm, att in lsets["c11"]:
             res.evaluations += 1
             first = h.match(mop, path, mode="first")
@@ -138,6 +160,10 @@ def replay(case, h):
         if h.match(mop, path, mode="first") != h.match(mop, path, mode="all")[:1]:
             problems.append(("first-prefix", "", ""))
         return bool(problems), str(problems)[:500]
+    if case.get("clause") == "scan-dup-addr":
+        att = [(a, m, list(o)) for a, m, o in case["listing"]]
+        got = h.match(h.mop(case["rule"]), h.listing_file(fmt_listing(att)), mode="all", only_addr=True)
+        return got != case["expected"], f"got {got}"
     if case.get("clause") == "first-prefix":
         att = [(a, m, list(o)) for a, m, o in case["listing"]]
         p = h.listing_file(fmt_listing(att))
